@@ -109,7 +109,8 @@ def load_corpus(prop_id: str) -> list[dict[str, Any]]:
 def gen_engine_case(rng: random.Random, kind: str) -> dict[str, Any]:
     from harness.cmd_engine import gen_method, gen_snippet
     failing = kind == "c11" and rng.random() < 0.35
-    pcode = gen_method(rng, failing=failing, engine_cmds=kind != "c11" or rng.random() < 0.3)
+    bad_args = kind in ("c11", "c10") and rng.random() < 0.3
+    pcode = gen_method(rng, failing=failing, engine_cmds=kind != "c11" or rng.random() < 0.3, bad_args=bad_args)
     ticks = rng.choice([30, 40, 50])
     sched: dict[str, list] = {}
 
@@ -117,7 +118,7 @@ def gen_engine_case(rng: random.Random, kind: str) -> dict[str, Any]:
         sched.setdefault(str(t), []).append(op)
     if kind in ("c11", "c10"):
         for _ in range(rng.randrange(0, 4)):
-            at(rng.randrange(2, ticks - 10), ["inject", gen_snippet(rng, failing)])
+            at(rng.randrange(2, ticks - 10), ["inject", gen_snippet(rng, failing, bad_args)])
     if kind == "c11":
         for _ in range(rng.randrange(0, 4)):
             at(rng.randrange(2, ticks - 8), ["cancel", ["item", rng.randrange(60)]])
